@@ -1,24 +1,1051 @@
-//! C15 — not implemented yet (stub so that the registry compiles).
+//! C15 — live reload is all-or-nothing: a reload that fails keeps the old configuration and behaves
+//! exactly as if no reload had been requested; a reload that succeeds is applied once no output key
+//! is down (or after one idle second), activates the first layer, leaves nothing pressed, notifies
+//! clients (ConfigFileReload + LayerChange) and from the next idle point on behaves exactly like a
+//! freshly started instance of the new file.
+//!
+//! Everything runs on the real code. The reload path (`handle_time_ticks` → `do_live_reload`) is
+//! private and wall-clock driven; the `--cfg kanata_verif` hooks let the ReloadDriver below run it
+//! in virtual time: one virtual millisecond = `can_block_update_idle_waiting(1)` (what the loop does
+//! every iteration) + `verif_rewind_last_tick(1.3 ms)` + `verif_handle_time_ticks(&tx)`, and the
+//! returned `ms_elapsed` is checked to be exactly 1. Configurations are real files in a per-case
+//! scratch directory, notifications are read from a real `sync_channel::<ServerMessage>(100)`.
+//!
+//! Oracles (relational):
+//!  * failed reload  : run A (reload key = lrld…) vs twin B (same files, same history, but every
+//!                     reload key is `(lrld-file "<path that is not an argument>")`, a custom action
+//!                     without effect): identical complete traces and notifications, no
+//!                     ConfigFileReload.
+//!  * successful one : not applied while an OS key is down unless > 1000 ms passed since the last
+//!                     input/output; right notifications; first layer active; after application no
+//!                     output other than releases until new input; everything up, nothing scrolling
+//!                     or moving at the idle point; from the idle point on identical (tick-relative)
+//!                     to a fresh `Kanata::new` of the new file on the same continuation.
 
+use super::c07::dcommon::{drain_into, kind_class};
+use crate::core::rng::Rng;
+use crate::core::sim::{first_diff, osc, render_hist, Ev, Out, OutKind, Sim};
 use crate::core::{CaseOut, Check, Ctx};
+use kanata_tcp_protocol::ServerMessage;
+use serde_json::{json, Value};
+use std::path::{Path, PathBuf};
+use std::sync::mpsc::{Receiver, SyncSender};
 
 pub struct C15Check;
 pub static C15: C15Check = C15Check;
+
+// ------------------------------------------------------------------------------------------
+// ReloadDriver
+// ------------------------------------------------------------------------------------------
+
+#[derive(Clone, Debug, PartialEq)]
+enum Note {
+    Reload(String),
+    Layer(String),
+    Other(String),
+}
+
+impl Note {
+    fn short(&self) -> String {
+        match self {
+            Note::Reload(p) => format!("ConfigFileReload({})", Path::new(p).file_name().map(|s| s.to_string_lossy().to_string()).unwrap_or_default()),
+            Note::Layer(l) => format!("LayerChange({l})"),
+            Note::Other(s) => format!("Other({s})"),
+        }
+    }
+}
+
+struct Rd {
+    sim: Sim,
+    tx: Option<SyncSender<ServerMessage>>,
+    rx: Receiver<ServerMessage>,
+    notes: Vec<(u64, Note)>,
+    /// ms_elapsed != 1 was observed (scheduling jitter): the run must be repeated
+    jitter: bool,
+    err: Option<String>,
+    /// virtual time of the last input event or output
+    last_activity: u64,
+}
+
+impl Rd {
+    fn new(paths: Vec<PathBuf>) -> Result<Rd, String> {
+        let sim = Sim::from_paths(paths)?;
+        let (tx, rx) = std::sync::mpsc::sync_channel::<ServerMessage>(100);
+        Ok(Rd { sim, tx: Some(tx), rx, notes: vec![], jitter: false, err: None, last_activity: 0 })
+    }
+    /// one virtual millisecond through the real `handle_time_ticks`
+    fn tick(&mut self) {
+        let _ = self.sim.k.can_block_update_idle_waiting(1);
+        self.sim.k.verif_rewind_last_tick(std::time::Duration::from_micros(1300));
+        match self.sim.k.verif_handle_time_ticks(&self.tx) {
+            Ok(1) => {}
+            Ok(_) => self.jitter = true,
+            Err(e) => self.err = Some(format!("{e}")),
+        }
+        self.sim.now += 1;
+        drain_into(&mut self.sim, true);
+        if !self.sim.last().is_empty() {
+            self.last_activity = self.sim.now;
+        }
+        while let Ok(m) = self.rx.try_recv() {
+            let n = match m {
+                ServerMessage::ConfigFileReload { new } => Note::Reload(new),
+                ServerMessage::LayerChange { new } => Note::Layer(new),
+                other => Note::Other(format!("{other:?}")),
+            };
+            self.notes.push((self.sim.now, n));
+        }
+    }
+    fn apply(&mut self, e: &Ev) {
+        match e {
+            Ev::T(n) => {
+                for _ in 0..*n {
+                    self.tick();
+                }
+            }
+            other => {
+                self.sim.apply(other);
+                self.last_activity = self.sim.now;
+            }
+        }
+    }
+    fn run(&mut self, h: &[Ev]) {
+        for e in h {
+            self.apply(e);
+        }
+    }
+}
+
+// ------------------------------------------------------------------------------------------
+// configurations
+// ------------------------------------------------------------------------------------------
+
+const ACT_KEYS: &[&str] = &["a", "s", "d", "f", "g", "h"];
+const RELOAD_KEYS: &[&str] = &["1", "2", "3", "4", "5"];
+const LAYER_NAMES: &[&str] = &["base", "main", "alpha", "first", "qwerty", "nav", "sym", "fn", "other", "two"];
+const OLD_LETTERS: &[&str] = &["q", "w", "e", "r", "t", "y", "u", "i", "o", "p", "k", "l"];
+const NEW_LETTERS: &[&str] = &["z", "x", "c", "v", "b", "n", "m", "6", "7", "8", "k", "l"];
+
+#[derive(Clone, Debug)]
+struct CfgSpec {
+    l0: String,
+    l1: String,
+    acts0: Vec<String>,
+    acts1: Vec<String>,
+    opts: String,
+    overrides: Option<(String, String)>,
+}
+
+fn reload_row(num: usize, file: &str, noop: bool) -> String {
+    if noop {
+        let n = "(lrld-file \"/verif/.work/not-an-argument.kbd\")";
+        return format!("{n} {n} {n} {n} {n}");
+    }
+    format!("lrld lrld-next lrld-prev (lrld-num {num}) (lrld-file \"{file}\")")
+}
+
+fn cfg_text(s: &CfgSpec, row: &str) -> String {
+    let mut t = format!("(defcfg process-unmapped-keys yes{})\n", s.opts);
+    t.push_str(&format!("(defsrc {} {})\n", ACT_KEYS.join(" "), RELOAD_KEYS.join(" ")));
+    t.push_str("(defvirtualkeys v0 lalt v1 (macro f9 5 f10))\n");
+    t.push_str(&format!("(deflayer {}\n  {}\n  {row})\n", s.l0, s.acts0.join("\n  ")));
+    t.push_str(&format!("(deflayer {}\n  {}\n  {row})\n", s.l1, s.acts1.join("\n  ")));
+    if let Some((a, b)) = &s.overrides {
+        t.push_str(&format!("(defoverrides ({a}) ({b}))\n"));
+    }
+    t
+}
+
+fn rand_action(rng: &mut Rng, letters: &[&str], other_layer: &str) -> String {
+    let k = |rng: &mut Rng| rng.pick(letters).to_string();
+    match rng.usize(40) {
+        0..=15 => k(rng),
+        16 | 17 => format!("(tap-hold 200 200 {} lctl)", k(rng)),
+        18 | 19 => format!("(one-shot 500 {})", rng.pick(&["lsft", "rctl"])),
+        20 | 21 => format!("(macro {} 50 {} 50 {})", k(rng), k(rng), k(rng)),
+        22 => "mlft".into(),
+        23 => format!("(mwheel-{} 20 120)", rng.pick(&["up", "down", "left"])),
+        24 => format!("(movemouse-{} 20 5)", rng.pick(&["left", "up"])),
+        25 => "(caps-word 300)".into(),
+        26 => "(hold-for-duration 300 v0)".into(),
+        27 | 28 => format!("(layer-while-held {other_layer})"),
+        29 => format!("(layer-switch {other_layer})"),
+        30 | 31 => format!("S-{}", k(rng)),
+        32 => format!("(multi lsft {})", k(rng)),
+        33 => "(on-press tap-vkey v1)".into(),
+        34 => format!("(tap-dance 150 ({} {}))", k(rng), k(rng)),
+        35 => format!("(unmod {})", k(rng)),
+        37 => format!("(fork {} {} (lsft rctl))", k(rng), k(rng)),
+        _ => k(rng),
+    }
+}
+
+fn rand_spec(rng: &mut Rng, letters: &[&str], avoid_l0: Option<&str>) -> CfgSpec {
+    let mut names: Vec<&str> = LAYER_NAMES.to_vec();
+    rng.shuffle(&mut names);
+    if let Some(av) = avoid_l0 {
+        // most of the time the new first layer has another name than the old one
+        if names[0] == av && rng.chance(4, 5) {
+            names.swap(0, 2);
+        }
+    }
+    let (l0, l1) = (names[0].to_string(), names[1].to_string());
+    let acts0 = (0..ACT_KEYS.len()).map(|_| rand_action(rng, letters, &l1)).collect();
+    let acts1 = (0..ACT_KEYS.len()).map(|_| if rng.chance(1, 4) { "_".to_string() } else { rand_action(rng, letters, &l0) }).collect();
+    let mut opts = String::new();
+    if rng.chance(1, 3) {
+        opts.push_str(" concurrent-tap-hold yes");
+    }
+    if rng.chance(1, 4) {
+        opts.push_str(&format!(" rapid-event-delay {}", rng.pick(&[0u32, 1, 20])));
+    }
+    if rng.chance(1, 4) {
+        opts.push_str(" override-release-on-activation yes");
+    }
+    // the overridden key is one that the first layer really types (so the table matters)
+    let acts0: Vec<String> = acts0;
+    let typed: Vec<&String> = acts0.iter().filter(|a| letters.contains(&a.as_str())).collect();
+    let overrides = if rng.chance(1, 2) {
+        let from = if typed.is_empty() { letters[rng.usize(letters.len())].to_string() } else { (*rng.pick(&typed)).clone() };
+        let mut to = letters[rng.usize(letters.len())].to_string();
+        if to == from {
+            to = "f1".into();
+        }
+        Some((from, to))
+    } else {
+        None
+    };
+    CfgSpec { l0, l1, acts0, acts1, opts, overrides }
+}
+
+#[derive(Clone, Debug, PartialEq)]
+enum Content {
+    Valid,
+    Syntax,
+    Semantic,
+    Missing,
+    Directory,
+    NonUtf8,
+}
+const FAULTS: &[Content] = &[Content::Syntax, Content::Semantic, Content::Missing, Content::Directory, Content::NonUtf8];
+
+fn fault_name(c: &Content) -> &'static str {
+    match c {
+        Content::Valid => "valid",
+        Content::Syntax => "syntax-error",
+        Content::Semantic => "semantic-error",
+        Content::Missing => "missing-file",
+        Content::Directory => "directory",
+        Content::NonUtf8 => "non-utf8",
+    }
+}
+
+fn write_content(path: &Path, c: &Content, valid_text: &str, variant: u64) -> std::io::Result<()> {
+    let _ = std::fs::remove_file(path);
+    let _ = std::fs::remove_dir_all(path);
+    match c {
+        Content::Valid => std::fs::write(path, valid_text),
+        Content::Syntax => {
+            let t = match variant % 3 {
+                0 => valid_text.trim_end().trim_end_matches(')').to_string(),
+                1 => format!("{valid_text}\n(deflayer broken a s d"),
+                _ => valid_text.replacen("(defsrc", "(defsrc \"unterminated", 1),
+            };
+            std::fs::write(path, t)
+        }
+        Content::Semantic => {
+            let t = match variant % 4 {
+                0 => valid_text.replacen("lrld-next", "@no-such-alias", 1),
+                1 => valid_text.replacen("lrld-prev", "(tap-hold 200 0 a b)", 1),
+                2 => format!("{valid_text}\n(deflayer extra a)\n"),
+                _ => valid_text.replacen("lrld-prev", "(layer-switch no-such-layer)", 1),
+            };
+            std::fs::write(path, t)
+        }
+        Content::Missing => Ok(()),
+        Content::Directory => std::fs::create_dir_all(path),
+        Content::NonUtf8 => {
+            let mut b = valid_text.as_bytes().to_vec();
+            let pos = b.len() / 2;
+            b.splice(pos..pos, [0xff, 0xfe, 0x80, 0xc3, 0x28]);
+            std::fs::write(path, b)
+        }
+    }
+}
+
+// ------------------------------------------------------------------------------------------
+// cases
+// ------------------------------------------------------------------------------------------
+
+const SCENARIOS: &[&str] = &[
+    "idle", "key-held", "pending-tap-hold", "active-one-shot", "running-macro", "mouse-button-held", "mwheel-held", "movemouse-held",
+    "caps-word", "pending-hold-for-duration", "layer-held", "layer-switched", "unmod-held-1s", "key-held-long", "two-keys-held", "random-typing",
+];
+const REQ_KINDS: &[&str] = &["lrld", "lrld-next", "lrld-prev", "lrld-num", "lrld-file"];
+
+struct Plan {
+    scenario: &'static str,
+    nfiles: usize,
+    /// valid text of every file (what a "valid" content of file i is); file 0's startup text is `old`
+    specs: Vec<CfgSpec>,
+    old: CfgSpec,
+    /// what is on disk in each file when the request is made
+    contents: Vec<Content>,
+    fault_variant: u64,
+    /// reload keys tapped: (index into REQ_KINDS, ticks held, ticks after release)
+    reqs: Vec<(usize, u32, u32)>,
+    /// lrld-num argument (1-based) and lrld-file index, fixed per case (part of every config text)
+    num_arg: usize,
+    file_arg: usize,
+    /// file index after each request, by the harness' own model of the selection rules
+    idx_after: Vec<usize>,
+    pre: Vec<Ev>,
+    post: Vec<Ev>,
+    cont: Vec<Ev>,
+    success: bool,
+}
+
+fn step_idx(kind: usize, cur: usize, n: usize, num_arg: usize, file_arg: usize) -> usize {
+    match REQ_KINDS[kind] {
+        "lrld" => cur,
+        "lrld-next" => (cur + 1) % n,
+        "lrld-prev" => (cur + n - 1) % n,
+        "lrld-num" => num_arg - 1,
+        _ => file_arg,
+    }
+}
+
+fn make_plan(ctx: &Ctx, idx: u64) -> Plan {
+    let mut rng = Rng::for_case(ctx.seed, "C15", "case", idx);
+    // systematic part: scenario x request kind x outcome cycle with the index, details are random
+    let scenario = SCENARIOS[(idx as usize) % SCENARIOS.len()];
+    let kind0 = ((idx as usize) / SCENARIOS.len()) % REQ_KINDS.len();
+    let success = ((idx as usize) / (SCENARIOS.len() * REQ_KINDS.len())) % 2 == 0;
+    let fault = FAULTS[((idx as usize) / (SCENARIOS.len() * REQ_KINDS.len() * 2)) % FAULTS.len()].clone();
+    let nfiles = if REQ_KINDS[kind0] == "lrld" { 1 + rng.usize(3) } else { 1 + rng.usize(3) };
+    let num_arg = 1 + rng.usize(nfiles);
+    let file_arg = rng.usize(nfiles);
+    let back_to_back = rng.chance(1, 5);
+    let mut reqs = vec![(kind0, 1 + rng.usize(20) as u32, *rng.pick(&[0u32, 1, 3, 10, 40]))];
+    if back_to_back {
+        let k2 = if success { rng.usize(REQ_KINDS.len()) } else { kind0 };
+        reqs.push((k2, 1 + rng.usize(10) as u32, *rng.pick(&[0u32, 2, 15])));
+    }
+    let mut idx_after = vec![];
+    let mut cur = 0usize;
+    for r in &reqs {
+        cur = step_idx(r.0, cur, nfiles, num_arg, file_arg);
+        idx_after.push(cur);
+    }
+    // configurations
+    let mut old = rand_spec(&mut rng, OLD_LETTERS, None);
+    let other = old.l1.clone();
+    let k = |rng: &mut Rng| rng.pick(OLD_LETTERS).to_string();
+    let mut pre: Vec<Ev> = vec![];
+    let mut held: Vec<&str> = vec![];
+    let mut wait_before_release = *rng.pick(&[0u32, 1, 5, 30, 120]);
+    let tapk = |pre: &mut Vec<Ev>, key: &str, hold: u32, after: u32| {
+        pre.push(Ev::P(osc(key)));
+        pre.push(Ev::T(hold));
+        pre.push(Ev::R(osc(key)));
+        if after > 0 {
+            pre.push(Ev::T(after));
+        }
+    };
+    match scenario {
+        "idle" => {}
+        "key-held" => {
+            old.acts0[0] = k(&mut rng);
+            pre.extend([Ev::P(osc("a")), Ev::T(20)]);
+            held.push("a");
+        }
+        "pending-tap-hold" => {
+            old.acts0[0] = format!("(tap-hold 200 200 {} lctl)", k(&mut rng));
+            pre.extend([Ev::P(osc("a")), Ev::T(*rng.pick(&[5u32, 50, 150]))]);
+            held.push("a");
+        }
+        "active-one-shot" => {
+            old.acts0[0] = "(one-shot 500 lsft)".into();
+            tapk(&mut pre, "a", 10, *rng.pick(&[5u32, 100, 400]));
+        }
+        "running-macro" => {
+            old.acts0[0] = format!("(macro {} 50 S-({} 50 {}) 50 {})", k(&mut rng), k(&mut rng), k(&mut rng), k(&mut rng));
+            tapk(&mut pre, "a", 5, *rng.pick(&[2u32, 30, 70, 110]));
+        }
+        "mouse-button-held" => {
+            old.acts0[0] = "mlft".into();
+            pre.extend([Ev::P(osc("a")), Ev::T(20)]);
+            held.push("a");
+        }
+        "mwheel-held" => {
+            old.acts0[0] = "(mwheel-up 20 120)".into();
+            pre.extend([Ev::P(osc("a")), Ev::T(30)]);
+            held.push("a");
+        }
+        "movemouse-held" => {
+            old.acts0[0] = "(movemouse-left 20 5)".into();
+            pre.extend([Ev::P(osc("a")), Ev::T(30)]);
+            held.push("a");
+        }
+        "caps-word" => {
+            old.acts0[0] = "(caps-word 300)".into();
+            old.acts0[1] = "e".into();
+            tapk(&mut pre, "a", 5, 10);
+            if rng.coin() {
+                pre.extend([Ev::P(osc("s")), Ev::T(10)]);
+                held.push("s");
+            } else {
+                tapk(&mut pre, "s", 5, 10);
+            }
+        }
+        "pending-hold-for-duration" => {
+            old.acts0[0] = "(hold-for-duration 300 v0)".into();
+            tapk(&mut pre, "a", 5, *rng.pick(&[5u32, 100, 280]));
+        }
+        "layer-held" => {
+            old.acts0[0] = format!("(layer-while-held {other})");
+            pre.extend([Ev::P(osc("a")), Ev::T(20)]);
+            held.push("a");
+            if rng.coin() {
+                old.acts1[1] = k(&mut rng);
+                pre.extend([Ev::P(osc("s")), Ev::T(10)]);
+                held.push("s");
+            }
+        }
+        "layer-switched" => {
+            old.acts0[0] = format!("(layer-switch {other})");
+            tapk(&mut pre, "a", 5, 20);
+        }
+        "unmod-held-1s" => {
+            old.acts0[0] = format!("(unmod {})", k(&mut rng));
+            pre.extend([Ev::P(osc("a")), Ev::T(20)]);
+            held.push("a");
+            wait_before_release = *rng.pick(&[900u32, 1100, 1500]);
+        }
+        "key-held-long" => {
+            old.acts0[0] = k(&mut rng);
+            pre.extend([Ev::P(osc("a")), Ev::T(20)]);
+            held.push("a");
+            wait_before_release = *rng.pick(&[990u32, 1100, 2500]);
+        }
+        "two-keys-held" => {
+            old.acts0[0] = k(&mut rng);
+            old.acts0[1] = format!("S-{}", k(&mut rng));
+            pre.extend([Ev::P(osc("a")), Ev::T(7), Ev::P(osc("s")), Ev::T(12)]);
+            held.push("a");
+            held.push("s");
+        }
+        _ => {
+            // random typing on the old configuration, whatever is down stays down
+            let keys: Vec<u16> = ACT_KEYS.iter().map(|k| osc(k)).collect();
+            let n = 3 + rng.usize(12);
+            let h = crate::gen::hist::consistent(&mut rng, &keys, n, &[0, 1, 5, 20, 60, 199, 201], false);
+            // cut the automatic releases at the end: keep a random prefix
+            let cut = 1 + rng.usize(h.len());
+            pre = h[..cut].to_vec();
+            for kname in ACT_KEYS {
+                if crate::gen::hist::still_down(&pre).contains(&osc(kname)) {
+                    held.push(kname);
+                }
+            }
+        }
+    }
+    let mut specs = vec![];
+    for i in 0..nfiles {
+        // what a valid reload of file i installs; for file 0 that differs from the startup text
+        let avoid = old.l0.clone();
+        let _ = i;
+        specs.push(rand_spec(&mut rng, NEW_LETTERS, Some(&avoid)));
+    }
+    let target = *idx_after.last().unwrap();
+    let mut contents = vec![Content::Valid; nfiles];
+    if !success {
+        // every file a request of this case can land on is broken in the same way
+        for &i in &idx_after {
+            contents[i] = fault.clone();
+        }
+    }
+    let _ = target;
+    // after the request(s): wait, then release what is held
+    let mut post = vec![];
+    if wait_before_release > 0 {
+        post.push(Ev::T(wait_before_release));
+    }
+    let mut hv = held.clone();
+    rng.shuffle(&mut hv);
+    for kname in hv {
+        post.push(Ev::R(osc(kname)));
+        let g = *rng.pick(&[0u32, 1, 5, 30, 300]);
+        if g > 0 {
+            post.push(Ev::T(g));
+        }
+    }
+    // continuation
+    let keys: Vec<u16> = ACT_KEYS.iter().map(|k| osc(k)).collect();
+    let n = 8 + rng.usize(24);
+    let mut cont = crate::gen::hist::consistent(&mut rng, &keys, n, &[0, 1, 5, 20, 60, 199, 201, 300, 520], false);
+    cont.push(Ev::T(1500));
+    Plan { scenario, nfiles, specs, old, contents, fault_variant: rng.below(12), reqs, num_arg, file_arg, idx_after, pre, post, cont, success }
+}
+
+struct Obs {
+    trace: Vec<Out>,
+    notes: Vec<(u64, Note)>,
+    /// tick of the first request key press
+    t_req: u64,
+    /// ticks at which the OS model had keys down, sampled at every ConfigFileReload: (tick, keys down before that tick's outputs were applied?, idle time)
+    applied: Vec<AppliedInfo>,
+    /// tick at which the continuation starts (None: never became idle)
+    t_idle: Option<u64>,
+    settle_problem: Option<(String, String)>,
+    requested_at_end: bool,
+    /// (only meaningful when keys are stuck at the end) every stuck key is produced by a layout state
+    stuck_keys_backed_by_layout: bool,
+}
+
+#[derive(Clone, Debug)]
+struct AppliedInfo {
+    tick: u64,
+    file: String,
+    os_keys_down: Vec<String>,
+    idle_for: u64,
+    layer_after: usize,
+    layer_name_after: String,
+}
+
+struct Jitter;
+
+struct Paths {
+    dir: PathBuf,
+    files: Vec<PathBuf>,
+}
+
+fn paths_for(idx: u64, nfiles: usize) -> Paths {
+    let dir = PathBuf::from(format!("/verif/.work/c15-{}/case-{idx}", std::process::id()));
+    let files = (0..nfiles).map(|i| dir.join(format!("f{i}.kbd"))).collect();
+    Paths { dir, files }
+}
+
+fn texts(p: &Plan, paths: &Paths, noop: bool) -> (String, Vec<String>) {
+    let row = reload_row(p.num_arg, &paths.files[p.file_arg].to_string_lossy(), noop);
+    let old = cfg_text(&p.old, &row);
+    let new = p.specs.iter().map(|s| cfg_text(s, &row)).collect();
+    (old, new)
+}
+
+/// Run the reload history once. `noop` = twin B (reload keys without effect).
+fn run_reload(p: &Plan, paths: &Paths, noop: bool) -> Result<Result<Obs, String>, Jitter> {
+    let (old, new) = texts(p, paths, noop);
+    let _ = std::fs::remove_dir_all(&paths.dir);
+    if std::fs::create_dir_all(&paths.dir).is_err() {
+        return Ok(Err("cannot create scratch directory".into()));
+    }
+    // start-up state of the files: file 0 holds the old configuration; the others already hold
+    // what they will hold at request time (they are only read by a reload)
+    let mut io_ok = std::fs::write(&paths.files[0], &old).is_ok();
+    for i in 1..p.nfiles {
+        io_ok &= write_content(&paths.files[i], &p.contents[i], &new[i], p.fault_variant).is_ok();
+    }
+    if !io_ok {
+        return Ok(Err("cannot write scratch files".into()));
+    }
+    let mut rd = match Rd::new(paths.files.clone()) {
+        Ok(r) => r,
+        Err(e) => return Ok(Err(format!("old configuration rejected: {e}"))),
+    };
+    rd.run(&[Ev::T(5)]);
+    rd.run(&p.pre);
+    // the file the first request reloads changes on disk just before the request
+    if write_content(&paths.files[0], &p.contents[0], &new[0], p.fault_variant).is_err() {
+        return Ok(Err("cannot rewrite scratch file".into()));
+    }
+    let t_req = rd.sim.now;
+    let mut applied: Vec<AppliedInfo> = vec![];
+    // from here on every tick is inspected for ConfigFileReload notifications
+    let mut seen_notes = rd.notes.len();
+    let mut step = |rd: &mut Rd, e: &Ev, applied: &mut Vec<AppliedInfo>| {
+        let n = if let Ev::T(n) = e { *n } else { 0 };
+        if n == 0 {
+            rd.apply(e);
+            return;
+        }
+        for _ in 0..n {
+            let keys_before: Vec<String> = rd.sim.os.keys_down.iter().cloned().collect();
+            let idle_for = rd.sim.now.saturating_sub(rd.last_activity);
+            rd.tick();
+            while seen_notes < rd.notes.len() {
+                if let Note::Reload(f) = &rd.notes[seen_notes].1 {
+                    // keys down after this tick's outputs = what the reload condition looked at
+                    let after: Vec<String> = rd.sim.os.keys_down.iter().cloned().collect();
+                    let layer_after = rd.sim.k.layout.b().current_layer();
+                    let layer_name_after = rd.sim.k.layer_info.get(layer_after).map(|l| l.name.clone()).unwrap_or_default();
+                    let _ = keys_before.len();
+                    applied.push(AppliedInfo { tick: rd.sim.now, file: f.clone(), os_keys_down: after, idle_for, layer_after, layer_name_after });
+                }
+                seen_notes += 1;
+            }
+        }
+    };
+    for (kind, hold, after) in &p.reqs {
+        let key = osc(RELOAD_KEYS[*kind]);
+        step(&mut rd, &Ev::P(key), &mut applied);
+        step(&mut rd, &Ev::T(*hold), &mut applied);
+        step(&mut rd, &Ev::R(key), &mut applied);
+        step(&mut rd, &Ev::T(*after), &mut applied);
+    }
+    for e in &p.post {
+        step(&mut rd, e, &mut applied);
+    }
+    // settle: reload decided, kanata may block, everything up, quiet for 40 ticks
+    let mut quiet = 0u64;
+    let mut t_idle = None;
+    let t0 = rd.sim.now;
+    while rd.sim.now - t0 < 6000 {
+        let n0 = rd.sim.trace.len();
+        step(&mut rd, &Ev::T(1), &mut applied);
+        if rd.sim.trace.len() > n0 {
+            quiet = 0;
+        } else {
+            quiet += 1;
+        }
+        if quiet >= 40 && !rd.sim.k.verif_live_reload_requested() && rd.sim.is_idle() && rd.sim.k.waiting_for_idle.is_empty() && rd.sim.os.all_up() {
+            t_idle = Some(rd.sim.now);
+            break;
+        }
+    }
+    let mut settle_problem = None;
+    if t_idle.is_none() {
+        let tail: Vec<&Out> = rd.sim.trace.iter().rev().take(6).collect();
+        let what = if tail.iter().any(|o| o.kind == OutKind::Scroll) && quiet < 40 {
+            "scroll"
+        } else if tail.iter().any(|o| o.kind == OutKind::Move) && quiet < 40 {
+            "move"
+        } else if !rd.sim.os.btns_down.is_empty() {
+            "button-down"
+        } else if !rd.sim.os.keys_down.is_empty() {
+            "key-down"
+        } else if rd.sim.k.verif_live_reload_requested() {
+            "reload-still-pending"
+        } else if quiet < 40 {
+            "still-emitting"
+        } else {
+            "not-idle"
+        };
+        settle_problem = Some((what.to_string(), format!("{} | is_idle={} requested={} | last outputs {:?}", rd.sim.os.describe(), rd.sim.is_idle(), rd.sim.k.verif_live_reload_requested(), tail.iter().rev().map(|o| o.short()).collect::<Vec<_>>())));
+    } else {
+        for e in &p.cont {
+            step(&mut rd, e, &mut applied);
+        }
+    }
+    if rd.jitter {
+        return Err(Jitter);
+    }
+    if let Some(e) = rd.err {
+        return Ok(Err(format!("handle_time_ticks returned Err: {e}")));
+    }
+    let requested_at_end = rd.sim.k.verif_live_reload_requested();
+    let backed: Vec<String> = rd.sim.k.layout.b().keycodes().map(|k| format!("{k:?}")).collect();
+    let stuck_keys_backed_by_layout = rd.sim.os.keys_down.iter().all(|k| backed.contains(k));
+    Ok(Ok(Obs { trace: std::mem::take(&mut rd.sim.trace), notes: rd.notes, t_req, applied, t_idle, settle_problem, requested_at_end, stuck_keys_backed_by_layout }))
+}
+
+/// Fresh instance of `file` (Kanata::new, as at start-up) running the continuation.
+fn run_fresh(p: &Plan, file: &Path) -> Result<Result<(Vec<Out>, Vec<(u64, Note)>, u64), String>, Jitter> {
+    let mut rd = match Rd::new(vec![file.to_path_buf()]) {
+        Ok(r) => r,
+        Err(e) => return Ok(Err(format!("fresh instance rejected the new file: {e}"))),
+    };
+    rd.run(&[Ev::T(50)]);
+    let t0 = rd.sim.now;
+    rd.run(&p.cont);
+    if rd.jitter {
+        return Err(Jitter);
+    }
+    Ok(Ok((std::mem::take(&mut rd.sim.trace), rd.notes, t0)))
+}
+
+fn rel(trace: &[Out], t0: u64) -> Vec<Out> {
+    trace
+        .iter()
+        .filter(|o| o.at > t0 || (o.at == t0 && !o.in_tick))
+        .map(|o| {
+            let mut o = o.clone();
+            o.at -= t0;
+            o
+        })
+        .collect()
+}
+
+fn rel_notes(n: &[(u64, Note)], t0: u64) -> Vec<(u64, Note)> {
+    n.iter().filter(|x| x.0 > t0).map(|x| (x.0 - t0, x.1.clone())).collect()
+}
+
+fn shorts(t: &[Out]) -> Vec<String> {
+    let v: Vec<String> = t.iter().map(|o| o.short()).collect();
+    if v.len() > 160 {
+        v[v.len() - 160..].to_vec()
+    } else {
+        v
+    }
+}
+
+fn notes_json(n: &[(u64, Note)]) -> Vec<String> {
+    n.iter().map(|(t, x)| format!("{}@{t}", x.short())).collect()
+}
+
+fn describe_plan(p: &Plan, paths: &Paths) -> Value {
+    let (old, new) = texts(p, paths, false);
+    json!({
+        "scenario": p.scenario,
+        "files": p.nfiles,
+        "old_config_f0": old,
+        "valid_text_of_each_file": new,
+        "content_on_disk_at_request": p.contents.iter().map(fault_name).collect::<Vec<_>>(),
+        "pre_history": render_hist(&p.pre),
+        "requests": p.reqs.iter().map(|(k, h, a)| format!("tap {} (key {}) held {h} ticks, then {a} ticks", REQ_KINDS[*k], RELOAD_KEYS[*k])).collect::<Vec<_>>(),
+        "file_index_after_each_request": p.idx_after,
+        "after_request": render_hist(&p.post),
+        "continuation": render_hist(&p.cont),
+        "expected": if p.success { "reload succeeds" } else { "reload fails" },
+    })
+}
+
+fn run_plan(ctx: &Ctx, idx: u64, out: &mut CaseOut) {
+    let p = make_plan(ctx, idx);
+    let paths = paths_for(idx, p.nfiles);
+    let desc = describe_plan(&p, &paths);
+    if ctx.verbose {
+        eprintln!("{}", serde_json::to_string_pretty(&desc).unwrap_or_default());
+    }
+    let mut attempts = 0;
+    let res = loop {
+        attempts += 1;
+        match judge_plan(&p, &paths, out, &desc, ctx.verbose) {
+            Ok(()) => break Ok(()),
+            Err(Jitter) if attempts < 5 => {
+                out.inc("jitter_retries");
+                // drop what the aborted attempt recorded
+                out.violations.clear();
+                continue;
+            }
+            Err(Jitter) => break Err(()),
+        }
+    };
+    let _ = std::fs::remove_dir_all(&paths.dir);
+    let _ = std::fs::remove_dir(paths.dir.parent().unwrap_or(Path::new("/nonexistent")));
+    if res.is_err() {
+        out.violations.clear();
+        out.inconclusive = Some("handle_time_ticks did not report exactly 1 ms in five attempts (scheduling jitter)".into());
+    }
+    if idx % 97 == 3 {
+        out.sample = Some(desc);
+    }
+}
+
+fn judge_plan(p: &Plan, paths: &Paths, out: &mut CaseOut, desc: &Value, verbose: bool) -> Result<(), Jitter> {
+    let a = match run_reload(p, paths, false)? {
+        Ok(a) => a,
+        Err(e) => {
+            if verbose {
+                eprintln!("not judged: {e}");
+            }
+            out.inc("cases_not_runnable");
+            return Ok(());
+        }
+    };
+    if verbose {
+        eprintln!("A trace: {:?}\nA notes: {:?}\napplied: {:?}\nt_req={} t_idle={:?} settle_problem={:?}", shorts(&a.trace), notes_json(&a.notes), a.applied, a.t_req, a.t_idle, a.settle_problem);
+    }
+    let witness = |observed: Value, expected: Value| {
+        json!({"case": desc, "config": desc["old_config_f0"], "history": format!("{} | requests | {} | settle | {}", desc["pre_history"].as_str().unwrap_or(""), desc["after_request"].as_str().unwrap_or(""), desc["continuation"].as_str().unwrap_or("")), "observed": observed, "expected": expected})
+    };
+    let kind_names: Vec<&str> = p.reqs.iter().map(|r| REQ_KINDS[r.0]).collect();
+    out.inc("cases");
+    out.inc(&format!("scenario:{}", p.scenario));
+    for k in &kind_names {
+        out.inc(&format!("request:{k}"));
+    }
+    if p.reqs.len() > 1 {
+        out.inc("back_to_back_requests");
+    }
+    out.inc(&format!("files:{}", p.nfiles));
+    if !p.success {
+        // ---------------------------------------------------------------- failed reload
+        let fault = fault_name(&p.contents[*p.idx_after.last().unwrap()]);
+        out.inc("failed_reload_cases");
+        out.inc(&format!("fault:{fault}"));
+        out.tag(format!("fail|{}|{}|{}|n{}", p.scenario, kind_names.join("+"), fault, p.nfiles));
+        if let Some((_, Note::Reload(f))) = a.notes.iter().find(|n| matches!(n.1, Note::Reload(_))) {
+            out.violate(
+                format!("failed-reload:notified:{fault}"),
+                format!("the file to reload is broken ({fault}) but a ConfigFileReload notification for {f} was sent"),
+                witness(json!({"notifications": notes_json(&a.notes)}), json!("no ConfigFileReload notification")),
+            );
+        }
+        let b = match run_reload(p, paths, true)? {
+            Ok(b) => b,
+            Err(e) => {
+                out.inc("twin_not_runnable");
+                if verbose {
+                    eprintln!("twin not runnable: {e}");
+                }
+                return Ok(());
+            }
+        };
+        out.count("outputs_compared_with_no_request_twin", a.trace.len() as u64);
+        if a.requested_at_end {
+            out.violate("failed-reload:request-never-decided", "the reload request is still pending at the end of the history", witness(json!({"settle": format!("{:?}", a.settle_problem)}), json!("request decided once keys are up")));
+        }
+        if let Some(d) = first_diff(&a.trace, &b.trace) {
+            let cls = if a.t_idle.is_none() || b.t_idle.is_none() { "never-idle" } else { "outputs" };
+            out.violate(
+                format!("failed-reload:differs-from-no-request:{cls}"),
+                format!("after a failed reload ({fault}) the outputs differ from the twin run in which no reload was requested: {d}"),
+                witness(json!({"with_failed_reload": shorts(&a.trace), "notifications": notes_json(&a.notes), "settle": format!("{:?}", a.settle_problem)}), json!({"no_request_twin": shorts(&b.trace), "notifications": notes_json(&b.notes)})),
+            );
+        } else if a.notes != b.notes {
+            out.violate(
+                "failed-reload:notifications-differ-from-no-request",
+                "after a failed reload the notifications differ from the twin run in which no reload was requested",
+                witness(json!({"notifications": notes_json(&a.notes)}), json!({"notifications": notes_json(&b.notes)})),
+            );
+        }
+        if a.t_idle.is_some() {
+            out.inc("failed_reload_cases_with_continuation");
+        }
+        return Ok(());
+    }
+    // -------------------------------------------------------------------- successful reload
+    out.inc("successful_reload_cases");
+    out.tag(format!("ok|{}|{}|n{}|applied{}", p.scenario, kind_names.join("+"), p.nfiles, a.applied.len().min(3)));
+    let target = *p.idx_after.last().unwrap();
+    let target_path = paths.files[target].to_string_lossy().to_string();
+    // (1) it is applied at all, and the last application is the file the requests end on
+    if a.applied.is_empty() {
+        let sig = match &a.settle_problem {
+            Some((w, _)) => format!("not-applied:{w}"),
+            None => "not-applied".to_string(),
+        };
+        out.violate(sig, "a valid file was requested but no reload was applied within 6000 ticks after every key was released", witness(json!({"trace": shorts(&a.trace), "notifications": notes_json(&a.notes), "settle": format!("{:?}", a.settle_problem)}), json!("ConfigFileReload once no output key is down")));
+        return Ok(());
+    }
+    out.count("reloads_applied", a.applied.len() as u64);
+    out.max("deferral_ticks", a.applied[0].tick.saturating_sub(a.t_req));
+    let defer = a.applied[0].tick.saturating_sub(a.t_req);
+    out.inc(match defer {
+        0..=1 => "deferral_0_1",
+        2..=50 => "deferral_2_50",
+        51..=600 => "deferral_51_600",
+        _ => "deferral_gt_600",
+    });
+    // files named by the notifications: a subsequence of the files selected by the requests, ending
+    // with the last one
+    let allowed: Vec<String> = p.idx_after.iter().map(|i| paths.files[*i].to_string_lossy().to_string()).collect();
+    let named: Vec<String> = a.applied.iter().map(|x| x.file.clone()).collect();
+    let mut ai = 0;
+    let mut subseq = true;
+    for n in &named {
+        while ai < allowed.len() && &allowed[ai] != n {
+            ai += 1;
+        }
+        if ai == allowed.len() {
+            subseq = false;
+            break;
+        }
+        ai += 1;
+    }
+    if !subseq || (p.reqs.len() == 1 && named.last() != Some(&target_path)) {
+        out.violate(
+            "wrong-file-reloaded",
+            format!("the ConfigFileReload notifications name {:?}, the requests select {:?}", named.iter().map(|s| s.rsplit('/').next().unwrap_or("")).collect::<Vec<_>>(), p.idx_after),
+            witness(json!({"notifications": notes_json(&a.notes)}), json!({"files_selected_by_requests": allowed})),
+        );
+        return Ok(());
+    }
+    // With two requests the first reload may be applied before the second request key has been
+    // processed (it can sit in the input queue behind a pending tap-hold); the restart discards
+    // the queue. The statement does not say which of the two must win, so the file that the last
+    // notification names is taken as "the new file" from here on.
+    let target = paths.files.iter().position(|x| Some(&x.to_string_lossy().to_string()) == named.last()).unwrap_or(target);
+    if named.last() != Some(&target_path) {
+        out.inc("second_request_lost_to_first_reload");
+    }
+    // (2) deferral: never with an OS key down unless more than 1000 ms without input/output
+    for ap in &a.applied {
+        if !ap.os_keys_down.is_empty() {
+            out.inc("applied_with_key_down");
+            if ap.idle_for <= 1000 {
+                out.violate(
+                    "applied-while-key-down",
+                    format!("reload applied at tick {} while the OS has {:?} down and only {} ms passed since the last input/output", ap.tick, ap.os_keys_down, ap.idle_for),
+                    witness(json!({"applied": format!("{ap:?}"), "trace": shorts(&a.trace)}), json!("applied only when no output key is down, or after more than 1000 idle ticks")),
+                );
+            } else {
+                out.inc("applied_by_1000_tick_fallback");
+            }
+        }
+    }
+    // (3) notifications: each ConfigFileReload is immediately followed by LayerChange(first layer)
+    for (i, (t, n)) in a.notes.iter().enumerate() {
+        if let Note::Reload(f) = n {
+            let fi = paths.files.iter().position(|x| x.to_string_lossy() == *f);
+            let first = fi.map(|fi| p.specs[fi].l0.clone()).unwrap_or_default();
+            let next = a.notes.get(i + 1);
+            let ok = matches!(next, Some((t2, Note::Layer(l))) if t2 == t && *l == first);
+            if !ok {
+                let cls = match next {
+                    Some((t2, Note::Layer(_))) if t2 == t => "wrong-layer-name",
+                    _ => "missing",
+                };
+                out.violate(
+                    format!("layer-change-notification:{cls}"),
+                    format!("ConfigFileReload at tick {t} must be followed by LayerChange({first}); got {:?}", next.map(|x| x.1.short())),
+                    witness(json!({"notifications": notes_json(&a.notes)}), json!(format!("ConfigFileReload({f}) then LayerChange({first}) in the same tick"))),
+                );
+            }
+            out.inc("notification_pairs_checked");
+        }
+    }
+    // (4) first layer active right after each application
+    for ap in &a.applied {
+        if ap.layer_after != 0 {
+            out.violate("first-layer-not-active", format!("after the reload at tick {} layer {} ({}) is active", ap.tick, ap.layer_after, ap.layer_name_after), witness(json!({"applied": format!("{ap:?}")}), json!("layer 0 active")));
+        }
+    }
+    // (5) after the last application a fresh instance that only sees releases emits nothing:
+    // no press / scroll / move / unicode until the continuation starts, and no notification
+    let t_app = a.applied.last().unwrap().tick;
+    let t_end_quiet = a.t_idle.unwrap_or(u64::MAX);
+    let late: Vec<&Out> = a.trace.iter().filter(|o| o.at > t_app && o.at <= t_end_quiet && !matches!(o.kind, OutKind::Up | OutKind::BtnUp) && !(o.kind == OutKind::Code && o.name.ends_with("Release"))).collect();
+    let late_json: Vec<String> = late.iter().take(12).map(|o| o.short()).collect();
+    // (6) idle point: everything up, nothing scrolling / moving
+    let Some(t_idle) = a.t_idle else {
+        let (what, detail) = a.settle_problem.clone().unwrap_or_default();
+        let late_kind = late.first().map(|o| kind_class(&o.kind)).unwrap_or("");
+        let sig = match (what.as_str(), late_kind) {
+            ("scroll", _) | (_, "scroll") => "state-survives-reload:scroll".to_string(),
+            ("move", _) | (_, "move") => "state-survives-reload:move".to_string(),
+            ("button-down", _) => "stuck-after-reload:button".to_string(),
+            ("key-down", _) => {
+                if a.stuck_keys_backed_by_layout {
+                    "stuck-after-reload:key".to_string()
+                } else {
+                    "stuck-after-reload:key-without-layout-state".to_string()
+                }
+            }
+            (w, _) => format!("never-idle-after-reload:{w}"),
+        };
+        out.violate(
+            sig,
+            format!("6000 ticks after the reload (applied at tick {t_app}) and the release of every key kanata is not idle with everything released: {what} ({detail}); {} non-release outputs after the reload without new input", late.len()),
+            witness(json!({"trace": shorts(&a.trace), "notifications": notes_json(&a.notes), "settle": detail, "outputs_after_reload_without_input": late_json}), json!("everything released, no continuous output, idle")),
+        );
+        return Ok(());
+    };
+    if let Some(o) = late.first() {
+        out.violate(
+            format!("output-after-reload:{}", kind_class(&o.kind)),
+            format!("after the reload was applied at tick {t_app} and without new input kanata emitted {} ({} such outputs); a fresh instance emits nothing", o.short(), late.len()),
+            witness(json!({"trace": shorts(&a.trace), "notifications": notes_json(&a.notes), "outputs_after_reload_without_input": late_json}), json!("only releases after the reload until the next input")),
+        );
+    }
+    let late_notes: Vec<&(u64, Note)> = a.notes.iter().filter(|n| n.0 > t_app && n.0 <= t_end_quiet).collect();
+    if let Some(n) = late_notes.first() {
+        out.violate(
+            "notification-after-reload-without-input",
+            format!("{} at tick {} although nothing was typed since the reload at tick {t_app}", n.1.short(), n.0),
+            witness(json!({"notifications": notes_json(&a.notes)}), json!("no notification between the reload and the next input")),
+        );
+    }
+    out.inc("reached_idle_point_after_reload");
+    // (7) from the idle point on: a fresh instance of the new file
+    let f = match run_fresh(p, &paths.files[target])? {
+        Ok(f) => f,
+        Err(e) => {
+            out.violate("fresh-instance-rejects-reloaded-file", e, witness(json!(null), json!(null)));
+            return Ok(());
+        }
+    };
+    let ra = rel(&a.trace, t_idle);
+    let rf = rel(&f.0, f.2);
+    out.count("continuation_outputs_compared_with_fresh", rf.len() as u64);
+    if !rf.is_empty() {
+        out.inc("continuations_with_output");
+    }
+    if let Some(d) = first_diff(&ra, &rf) {
+        out.violate(
+            "differs-from-fresh-instance",
+            format!("from the idle point after the reload (tick {t_idle}) the outputs differ from a freshly started instance of the new file: {d}"),
+            witness(json!({"reloaded_relative_to_idle_point": shorts(&ra), "whole_trace": shorts(&a.trace), "notifications": notes_json(&a.notes)}), json!({"fresh_instance": shorts(&rf)})),
+        );
+    } else {
+        let na = rel_notes(&a.notes, t_idle);
+        let nf = rel_notes(&f.1, f.2);
+        if na != nf {
+            out.violate(
+                "notifications-differ-from-fresh-instance",
+                "from the idle point after the reload the layer notifications differ from a freshly started instance of the new file",
+                witness(json!({"reloaded": notes_json(&na)}), json!({"fresh": notes_json(&nf)})),
+            );
+        }
+        out.count("continuation_notifications_compared", nf.len() as u64);
+    }
+    Ok(())
+}
 
 impl Check for C15Check {
     fn id(&self) -> &'static str {
         "C15"
     }
-    fn n_cases(&self, _ctx: &Ctx) -> u64 {
-        0
+    fn n_cases(&self, ctx: &Ctx) -> u64 {
+        ctx.tier.sel(2_400, 40_000)
     }
-    fn run_case(&self, _ctx: &Ctx, _idx: u64) -> CaseOut {
-        CaseOut::new()
+    fn describe(&self, ctx: &Ctx, idx: u64) -> Value {
+        let p = make_plan(ctx, idx);
+        describe_plan(&p, &paths_for(idx, p.nfiles))
+    }
+    fn run_case(&self, ctx: &Ctx, idx: u64) -> CaseOut {
+        let mut out = CaseOut::new();
+        run_plan(ctx, idx, &mut out);
+        out
     }
     fn rule(&self) -> String {
-        "not implemented".into()
+        "case = (pre-state scenario, reload request kind, outcome) taken systematically from the index: 16 scenarios (idle, key held, pending tap-hold, active one-shot, running macro, held mouse button, held mwheel, held movemouse, caps-word, pending hold-for-duration, layer held, layer switched, unmod key held > 1 s (the 1000-idle-tick fallback), plain key held > 1 s, two keys held, random typing) x 5 request kinds (lrld, lrld-next, lrld-prev, lrld-num, lrld-file) x {valid new file, broken new file} x 5 fault kinds (syntax error, semantic error, missing file, directory, non-UTF-8), over 1-3 real files; every fifth case taps a second request back-to-back. Old and new configurations are random over plain keys, tap-hold, one-shot, macro, mouse button / wheel / movement, caps-word, hold-for-duration, layers, chords, multi, tap-dance, unmod, fork, overrides. After the request(s) the held keys are released with random gaps, the run settles, then a random continuation of 8-32 events is typed. Failed reloads are compared, output by output and tick by tick, with a twin run whose reload keys are inert; successful ones with a fresh Kanata::new of the new file from the idle point on, plus the deferral / notification / first-layer / nothing-pressed oracles. Non-trivial = case in which the request was made on an accepted old configuration; distinct = (outcome, scenario, request kinds, fault kind, number of files, number of reloads applied).".into()
     }
     fn assumptions(&self) -> Vec<String> {
-        vec![]
+        vec![
+            "time is driven through the kanata_verif hooks: one virtual ms = can_block_update_idle_waiting(1) + rewind last_tick by 1.3 ms + the real handle_time_ticks; a case in which handle_time_ticks reports anything but 1 ms is repeated (inconclusive after 5 attempts)".into(),
+            "'no output key is down' is judged on the OS model at the end of the tick that sent ConfigFileReload; 'one idle second' as more than 1000 ticks since the last input event or output".into(),
+            "the idle point after a reload is: request decided, is_idle, no pending on-idle action, OS model all-up, 40 silent ticks; the continuation contains no further reload requests".into(),
+            "lrld-num is only generated with a number that names an existing file (the guide does not say what an out-of-range number does)".into(),
+            "recorded dynamic macros and clipboard slots are kept across reloads on purpose and are not exercised".into(),
+            "device-related options, include files and zippychord dictionaries are not varied".into(),
+        ]
+    }
+    fn floors(&self, _ctx: &Ctx) -> Vec<(&'static str, u64)> {
+        vec![
+            ("failed_reload_cases", 200),
+            ("failed_reload_cases_with_continuation", 150),
+            ("successful_reload_cases", 200),
+            ("reached_idle_point_after_reload", 120),
+            ("continuations_with_output", 100),
+            ("notification_pairs_checked", 200),
+            ("fault:syntax-error", 20),
+            ("fault:semantic-error", 20),
+            ("fault:missing-file", 20),
+            ("fault:directory", 20),
+            ("fault:non-utf8", 20),
+            ("deferral_2_50", 10),
+            ("deferral_51_600", 10),
+            ("applied_by_1000_tick_fallback", 1),
+            ("back_to_back_requests", 30),
+            ("request:lrld-next", 50),
+            ("request:lrld-prev", 50),
+            ("request:lrld-num", 50),
+            ("request:lrld-file", 50),
+        ]
+    }
+    fn watchdog_s(&self, _ctx: &Ctx) -> u64 {
+        60
     }
 }
